@@ -86,7 +86,8 @@ def op_json(op):
     j = op_json1(op)
     if op.get("reentry"):
         # re-entry program of the hostile contract (model/Reentry.v): exec operations it performs during dispatch
-        j["reentry"] = [op_json1(x) for x in op["reentry"]]
+        # (an element may carry a program of its own: the tree programs of model/ReentryDeep.v)
+        j["reentry"] = [op_json(x) for x in op["reentry"]]
     return j
 
 
